@@ -64,6 +64,8 @@ def cases(tier, seed):
         mm = ((m[0], m[1]), (m[2], m[3]))
         out.append(('idx', ((2,),), (('a', mm),)))
         out.append(('idx', ((3, 2),), ('E', ('a', mm))))
+    for shape, mm in [((4,), ((0, 1), (2, 3))), ((3,), ((0, 1), (2, 2))), ((3,), ((0,), (1,), (2,))), ((4,), ((3, -1, 0), (1, 1, 2))), ((2, 4), ((0, 1), (2, 3)))]:
+        out.append(('idx', (shape,), (('a', mm),) if len(shape) == 1 else ('E', ('a', mm))))
     for L in range(1, 4 if tier == 'quick' else 5):
         for mk in itertools.product((False, True), repeat=L):
             out.append(('idx', ((L,),), (('m', mk),)))
